@@ -49,6 +49,16 @@ Existing(d) == {TokensOf(l) : l \in Range(LocsOf(d))}
 Paths(d) == Existing(d) \cup UNION {{p \o <<t>> : t \in ExtTokens(Resolve(d, p))} : p \in Existing(d)}
              \cup {<<X, X>>}
 Sources(d) == Existing(d) \cup {<<X>>} \cup (IF d.t = "arr" THEN {<<Dash>>, <<Decimal(Len(d.xs))>>} ELSE {})
+              \cup {p \o <<N0>> : p \in {e \in Existing(d) : Resolve(d, e).t = "str"}}     \* a step below a string (a string is not an array of characters)
+
+\* the value with every true / false replaced by 1 / 0 and the other way round, at any depth: equal to the host's
+\* loose equality, different JSON values
+RECURSIVE SwapBoolNum(_)
+SwapBoolNum(v) == CASE v.t = "bool" -> IntV(IF v.b THEN 1 ELSE 0)
+                    [] v.t = "num" -> (IF v.h \in {0, 2} THEN Bool(v.h = 2) ELSE v)
+                    [] v.t = "arr" -> Arr([i \in 1..Len(v.xs) |-> SwapBoolNum(v.xs[i])])
+                    [] v.t = "obj" -> Obj(v.ks, [i \in 1..Len(v.vs) |-> SwapBoolNum(v.vs[i])])
+                    [] OTHER -> v
 
 OpsOver(P, F, V, d) ==
        {MkOp("add", p, <<>>, v) : p \in P, v \in V}
@@ -56,7 +66,8 @@ OpsOver(P, F, V, d) ==
   \cup {MkOp("replace", p, <<>>, v) : p \in P, v \in V}
   \cup {MkOp("move", p, f, Null) : p \in P, f \in F}
   \cup {MkOp("copy", p, f, Null) : p \in P, f \in F}
-  \cup UNION {{MkOp("test", p, <<>>, v) : v \in {IntV(1), Bool(TRUE), Obj(<<Y>>, <<Null>>), Obj(<<Y, X>>, <<IntV(1), Null>>)} \cup (IF IsErr(Resolve(d, p)) THEN {} ELSE {Resolve(d, p)})} : p \in P}
+  \cup UNION {{MkOp("test", p, <<>>, v) : v \in {IntV(1), Bool(TRUE), Str(A), Obj(<<Y>>, <<Null>>), Obj(<<Y, X>>, <<IntV(1), Null>>)}
+                                                  \cup (IF IsErr(Resolve(d, p)) THEN {} ELSE {Resolve(d, p), SwapBoolNum(Resolve(d, p))})} : p \in P}
 
 OpsFor(d) == OpsOver(Paths(d), Sources(d), Values(d), d)
 
